@@ -664,6 +664,10 @@ func createListeners(addrs []string, opts ...Option) ([]*listener, *Options, err
 		}
 		ln, err := initListener(proto, addr, options)
 		if err != nil {
+			// Don't leave the listeners created so far (and their Unix socket files) behind.
+			for _, l := range listeners[:i] {
+				l.close()
+			}
 			return nil, nil, err
 		}
 		listeners[i] = ln
